@@ -188,6 +188,18 @@ def task_element(pr, repo):
         ctx.oblige('EL: element == "H" only if the first non-digit character of the atom name is H (so a hydrogen record is never '
                    'named N, OXT or O\'\')', Implies(is_h, lead_h))
         ctx.oblige('EL: the name is the stripped field 13-16', len(nchars) <= 4)
+        # converse (PDB column convention): the element symbol sits in columns 13-14; blanks and digits there are not part of it;
+        # a name that fills all four columns has a one-letter element
+        from pyvc.builtins_model import strip_forks
+        e0 = strip_forks(ex, strip_forks(ex, nm[0:2], (32,)), tuple(range(48, 58)))
+        if len(e0) == 0:
+            spec_h = False
+        elif len(e0) == 1:
+            spec_h = (e0[0] == 72)
+        else:
+            spec_h = And(len(nchars) == 4, e0[0] == 72)
+        ctx.oblige('EL: a record is a hydrogen <=> the element symbol in columns 13-14 (digits and blanks dropped; one letter when the '
+                   'name fills all four columns) is H - also for digit-first names such as 1HD1', Sym(to_bool(is_h)) == Sym(to_bool(spec_h)))
     pr.explore(ex, thunk, 'element inference', max_paths=20000)
 
 
